@@ -1,6 +1,8 @@
 package checks
 
 import (
+	"math"
+	"unicode/utf8"
 	"bytes"
 	"testing"
 
@@ -115,6 +117,79 @@ func FuzzC10Selector(f *testing.F) {
 		c := C10SelCase{Spec: spec, G: g}
 		if err := c10SelCheck(c, rec); err != nil {
 			evid.SaveFailure("C10", "selectors", c, err)
+			t.Fatalf("%v", err)
+		}
+	})
+}
+
+// ---- coverage-guided value generators for the encode-side properties ----------------------
+// The fuzzer's bytes are decoded into a data-model value (by the reference CBOR decoder, or by the
+// DAG-JSON decoder used only as a parser); a value inside the property's domain is then put
+// through the same check as the rapid part, so a failure is an ordinary, replayable case of that part.
+
+func FuzzC02Values(f *testing.F) {
+	seedCbor(f)
+	rec := evid.New("C02", "fuzz-values", "")
+	f.Fuzz(func(t *testing.T, data []byte, o1, o2 byte) {
+		if len(data) > 2048 {
+			return
+		}
+		v, _, _, rej := refcbor.Decode(data, refcbor.Opts{CidOK: cidOK})
+		if rej != nil {
+			return
+		}
+		c := C02Case{V: v, Perm: []byte{o1, o2, o1 ^ o2}, Prog: []byte{o2, o1}, Impl: string(nodes.Impls[int(o1>>6)%len(nodes.Impls)])}
+		if err := c02Check(c, rec); err != nil {
+			evid.SaveFailure("C02", "encode", c, err)
+			t.Fatalf("%v", err)
+		}
+	})
+}
+
+func c04InDomain(v val.V) bool {
+	ok := true
+	v.Walk(func(x val.V) {
+		switch x.K {
+		case val.String:
+			ok = ok && utf8.ValidString(x.S)
+		case val.Uint:
+			ok = false
+		case val.Float:
+			ok = ok && !math.IsNaN(x.F) && !math.IsInf(x.F, 0)
+		case val.Map:
+			for _, e := range x.Ents {
+				ok = ok && utf8.ValidString(e.K)
+			}
+			ok = ok && !val.IsReservedShape(x)
+		}
+	})
+	return ok
+}
+
+func FuzzC04Values(f *testing.F) {
+	for _, b := range c10HostileJson {
+		if len(b) < 200 {
+			f.Add(b, byte(0), byte(0))
+		}
+	}
+	f.Add([]byte(`{"a":[1,2.5,"x",null,true,{"/":"bafyreigdmqpykrgxyaxtlafqpqhzrb7qy2rh75nldvfd4tucqmqqme5yje"},{"/":{"bytes":"AQID"}}],"/":"x","é":-0.5e-7}`), byte(0), byte(0))
+	f.Add([]byte(`{"/":{"bytes":"AQID"},"x":{"/":"not a cid","y":[]}}`), byte(1), byte(2))
+	rec := evid.New("C04", "fuzz-values", "")
+	f.Fuzz(func(t *testing.T, data []byte, o1, o2 byte) {
+		if len(data) > 2048 {
+			return
+		}
+		nb := basicnode.Prototype.Any.NewBuilder()
+		if err := evid.Guard("dagjson.Decode", func() error { return dagjson.Decode(nb, bytes.NewReader(data)) }); err != nil {
+			return
+		}
+		v, err := nodes.Read(nb.Build())
+		if err != nil || !c04InDomain(v) {
+			return
+		}
+		c := C04Case{V: v, Perm: []byte{o1, o2, o1 ^ o2}, Prog: []byte{o2, o1}, Impl: string(nodes.Impls[int(o1>>6)%len(nodes.Impls)])}
+		if err := c04Check(c, rec); err != nil {
+			evid.SaveFailure("C04", "roundtrip", c, err)
 			t.Fatalf("%v", err)
 		}
 	})
